@@ -401,7 +401,29 @@ macro_rules! h_lex_element_start_exact {
                     vk_cover!(selfclosing, "self-closing element");
                     vk_check!(offset_in(&buf, name) == old + 1 && name.len() == split - (old + 1), "element name is not the bytes up to the first white space");
                     if split < text_end {
-                        vk_check!(offset_in(&buf, attrs) == split + 1 && attrs.len() == text_end - (split + 1), "attribute text is not the rest of the tag");
+                        // the attribute text is the rest of the tag; an implementation may strip white space around it
+                        let mut okr = true;
+                        if attrs.len() > 0 {
+                            let s0 = offset_in(&buf, attrs);
+                            let e0 = s0 + attrs.len();
+                            okr = s0 >= split + 1 && e0 <= text_end;
+                            let mut j = split + 1;
+                            while okr && j < text_end {
+                                if (j < s0 || j >= e0) && !is_ws(buf[j]) {
+                                    okr = false;
+                                }
+                                j += 1;
+                            }
+                        } else {
+                            let mut j = split + 1;
+                            while j < text_end {
+                                if !is_ws(buf[j]) {
+                                    okr = false;
+                                }
+                                j += 1;
+                            }
+                        }
+                        vk_check!(okr, "attribute text is not the rest of the tag (up to surrounding white space)");
                     } else {
                         vk_check!(attrs.len() == 0, "attribute text invented");
                     }
